@@ -254,6 +254,7 @@ type c19Template struct {
 	Blank    []int       `json:"blank_or_comment_after"`
 	TypeB    bool        `json:"use_b_type_letter"`
 	User     string      `json:"user"`
+	Earlier  []string    `json:"earlier_downloads,omitempty"` // users who downloaded from the same gateway before
 	Host     string      `json:"host"`
 	NoUser   bool        `json:"no_username"`
 	Split    bool        `json:"split_user_domain"`
@@ -267,6 +268,7 @@ func TestC19_TEMPLATE(t *testing.T) {
 	runProp(t, "C19_TEMPLATE", func(t *rapid.T) c19Template {
 		c := c19Template{Settings: genSettings(t), TypeB: rapid.Bool().Draw(t, "typeB"), NoUser: rapid.Bool().Draw(t, "nouser"), Split: rapid.Bool().Draw(t, "split")}
 		c.User = rapid.SampledFrom([]string{"alice", "bob@example.com", "Ünï cødé", "a:b", "x y"}).Draw(t, "user")
+		c.Earlier = rapid.SliceOfN(rapid.SampledFrom([]string{"carol@corp.example", "dave", "erin@x", "alice"}), 0, 3).Draw(t, "earlier")
 		c.Host = rapid.SampledFrom([]string{"10.0.0.1:3389", "host.example:3390", "[::1]:3389"}).Draw(t, "host")
 		c.Blank = rapid.SliceOfN(rapid.IntRange(0, 60), 0, 4).Draw(t, "blank")
 		return c
@@ -310,18 +312,29 @@ func TestC19_TEMPLATE(t *testing.T) {
 		fn := filepath.Join(dir, "template.rdp")
 		os.WriteFile(fn, []byte(sb.String()), 0o600)
 		gwURL, _ := url.Parse("https://gw.example.test:8443/")
-		h := (&web.Config{
-			PAATokenGenerator: func(context.Context, string, string) (string, error) { return "the.access.token", nil },
-			Hosts:             []string{c.Host}, HostSelection: "roundrobin", GatewayAddress: gwURL,
-			RdpOpts:           web.RdpOpts{NoUsername: c.NoUser, SplitUserDomain: c.Split}, TemplateFile: fn,
-		}).NewHandler()
-		id := identity.NewUser()
-		id.SetUserName(c.User)
-		id.SetAuthenticated(true)
-		req := httptest.NewRequest("GET", "/connect", nil)
-		req = identity.AddToRequestCtx(id, req)
-		rr := httptest.NewRecorder()
-		h.HandleDownload(rr, req)
+		newHandler := func() *web.Handler {
+			return (&web.Config{
+				PAATokenGenerator: func(context.Context, string, string) (string, error) { return "the.access.token", nil },
+				Hosts:             []string{c.Host}, HostSelection: "roundrobin", GatewayAddress: gwURL,
+				RdpOpts:           web.RdpOpts{NoUsername: c.NoUser, SplitUserDomain: c.Split}, TemplateFile: fn,
+			}).NewHandler()
+		}
+		h := newHandler()
+		download := func(user string) *httptest.ResponseRecorder {
+			id := identity.NewUser()
+			id.SetUserName(user)
+			id.SetAuthenticated(true)
+			req := httptest.NewRequest("GET", "/connect", nil)
+			req = identity.AddToRequestCtx(id, req)
+			rr := httptest.NewRecorder()
+			h.HandleDownload(rr, req)
+			return rr
+		}
+		// earlier downloads by other users: what this user gets must not depend on them
+		for _, u := range c.Earlier {
+			download(u)
+		}
+		rr := download(c.User)
 		if rr.Code != http.StatusOK {
 			return viol("c19/template-rejected", "download with a well-formed template answered %d: %s\n template:\n%s", rr.Code, rr.Body.String(), shorten(sb.String()))
 		}
@@ -332,6 +345,15 @@ func TestC19_TEMPLATE(t *testing.T) {
 		got, err := rdpparser.Parser().Unmarshal([]byte(out))
 		if err != nil {
 			return viol("c19/readback-error", "generated file does not parse: %v", err)
+		}
+		if len(c.Earlier) > 0 {
+			// the same download from a gateway nobody used before: template, user, host and token are the same,
+			// so the settings must be the same
+			h = newHandler()
+			fresh, err := rdpparser.Parser().Unmarshal(download(c.User).Body.Bytes())
+			if err != nil || !reflect.DeepEqual(got, fresh) {
+				return viol("c19/download-depends-on-earlier-downloads", "after downloads by %q the file for %q differs from the one a fresh gateway produces: %s", c.Earlier, c.User, shorten(diffMaps(fresh, got)))
+			}
 		}
 		def := rdp.NewBuilder().Settings
 		dv := reflect.ValueOf(def)
@@ -512,4 +534,21 @@ func FuzzRDPParse(f *testing.F) {
 			t.Fatalf("[%s] %s", v.Sig, v.Msg)
 		}
 	})
+}
+
+// diffMaps lists the keys on which two settings maps differ.
+func diffMaps(want, got map[string]interface{}) string {
+	var d []string
+	for k, w := range want {
+		if g, ok := got[k]; !ok || !reflect.DeepEqual(g, w) {
+			d = append(d, fmt.Sprintf("%s: fresh %v, got %v (present=%v)", k, w, g, ok))
+		}
+	}
+	for k, g := range got {
+		if _, ok := want[k]; !ok {
+			d = append(d, fmt.Sprintf("%s: absent from fresh, got %v", k, g))
+		}
+	}
+	sort.Strings(d)
+	return strings.Join(d, "; ")
 }
